@@ -1,2 +1,3 @@
 //! Naive evaluators of the published equations (no crate code is called here).
 pub mod uniproc;
+pub mod ros2;
